@@ -74,7 +74,7 @@ def shapes(tier, seed):
     from . import c02
     rnd = random.Random(300 + seed)
     for i in range(20 if tier == 'quick' else 300):
-        prog, syms = c02.random_program(rnd, rnd.randint(4, 8))
+        prog, syms = c02.random_program(rnd, rnd.randint(4, 8), rich_branches=False)
         out = []
         for st in prog:
             if st[0] == 'org':
